@@ -3857,6 +3857,10 @@ func (d *msgpackDecDriverBytes) readContainerLen(ct msgpackContainerType) (clen 
 		clen = int(bigen.Uint16(d.r.readn2()))
 	} else if bd == ct.b32 {
 		clen = int(bigen.Uint32(d.r.readn4()))
+		if clen < 0 {
+
+			halt.errorf("container length overflows int: %d", uint32(clen))
+		}
 	} else if (ct.bFixMin & bd) == ct.bFixMin {
 		clen = int(ct.bFixMin ^ bd)
 	} else {
@@ -7900,6 +7904,10 @@ func (d *msgpackDecDriverIO) readContainerLen(ct msgpackContainerType) (clen int
 		clen = int(bigen.Uint16(d.r.readn2()))
 	} else if bd == ct.b32 {
 		clen = int(bigen.Uint32(d.r.readn4()))
+		if clen < 0 {
+
+			halt.errorf("container length overflows int: %d", uint32(clen))
+		}
 	} else if (ct.bFixMin & bd) == ct.bFixMin {
 		clen = int(ct.bFixMin ^ bd)
 	} else {
